@@ -646,7 +646,161 @@ func c14Base(c *h.Ctx) {
 	})
 }
 
+// c14BodyFast: Options.ApiBodyFastPath.  A field annotated api.body="x" on the top layer of a function's request or
+// response struct is turned into an alias (its lookup key becomes x and it carries no HTTP mapping) when the option
+// is set; without the option, and always below the top layer, the alias stays the field name and the field keeps
+// one HTTP mapping.  Keys resolve according to MapFieldWay in both cases.
+func c14BodyFast(c *h.Ctx) {
+	c.Run("api-body-fastpath", c.N(800, 25000), func(cs *h.Case) {
+		type fld struct {
+			id         int
+			name, body string // body: api.body value, "" = none
+			key        string // api.key value, "" = none (never together with body)
+			typ        string
+		}
+		mk := func(prefix string, n int) []fld {
+			var out []fld
+			used := map[int]bool{}
+			for i := 0; i < n; i++ {
+				id := 1 + cs.R.Intn(50)
+				for used[id] {
+					id = 1 + cs.R.Intn(50)
+				}
+				used[id] = true
+				f := fld{id: id, name: fmt.Sprintf("%sf%d", prefix, i), typ: []string{"string", "i32", "list<string>", "i64"}[cs.R.Intn(4)]}
+				switch cs.R.Intn(4) {
+				case 0, 1:
+					f.body = []string{"b_" + f.name, strings.ToUpper(f.name), "é" + f.name, f.name + ".x", f.name}[cs.R.Intn(5)]
+				case 2:
+					f.key = "k-" + f.name
+				}
+				out = append(out, f)
+			}
+			return out
+		}
+		inner := mk("in", 1+cs.R.Intn(3))
+		req := mk("rq", 1+cs.R.Intn(5))
+		rsp := mk("rs", 1+cs.R.Intn(4))
+		var sb strings.Builder
+		sb.WriteString("namespace go verif\n\n")
+		render := func(name string, fs []fld, withInner bool) {
+			fmt.Fprintf(&sb, "struct %s {\n", name)
+			for _, f := range fs {
+				an := ""
+				if f.body != "" {
+					an = fmt.Sprintf(" (api.body=%q)", f.body)
+				} else if f.key != "" {
+					an = fmt.Sprintf(" (api.key=%q)", f.key)
+				}
+				fmt.Fprintf(&sb, "  %d: %s %s%s,\n", f.id, f.typ, f.name, an)
+			}
+			if withInner {
+				sb.WriteString("  100: Inner inner,\n")
+			}
+			sb.WriteString("}\n\n")
+		}
+		render("Inner", inner, false)
+		render("Req", req, true)
+		render("Resp", rsp, true)
+		sb.WriteString("service Svc {\n  Resp M(1: Req req),\n}\n")
+		idl := sb.String()
+		cs.Info("idl", idl)
+		o := thrift.Options{ApiBodyFastPath: cs.R.Bool(),
+			MapFieldWay: []meta.MapFieldWay{meta.MapFieldUseAlias, meta.MapFieldUseFieldName, meta.MapFieldUseBoth}[cs.R.Intn(3)]}
+		cs.Info("opts", fmt.Sprintf("ApiBodyFastPath=%v MapFieldWay=%d", o.ApiBodyFastPath, o.MapFieldWay))
+		svc, err := o.NewDescritorFromContent(context.Background(), "main.thrift", idl, nil, false)
+		if err != nil {
+			cs.Viol("tdesc:parse-error-on-valid-idl", "err", err)
+			return
+		}
+		fn := svc.Functions()["M"]
+		if fn == nil {
+			cs.Viol("tdesc:function-set", "missing", "M")
+			return
+		}
+		check := func(d *thrift.StructDescriptor, fs []fld, top bool, path string) {
+			if d == nil {
+				cs.Viol("tdesc:fastpath:struct-missing", "path", path)
+				return
+			}
+			all := map[string]int{}
+			for _, f := range fs {
+				alias := f.name
+				mappings := 0
+				switch {
+				case f.key != "":
+					alias = f.key
+				case f.body != "" && top && o.ApiBodyFastPath:
+					alias = f.body
+				case f.body != "":
+					mappings = 1
+				}
+				p := path + "." + f.name
+				fd := d.FieldById(thrift.FieldID(f.id))
+				if fd == nil || fd.Name() != f.name {
+					cs.Viol("tdesc:field-missing-by-id", "path", p, "id", f.id)
+					continue
+				}
+				if fd.Alias() != alias {
+					cs.Viol("tdesc:field-identity", "path", p, "got-alias", fd.Alias(), "want-alias", alias, "top", top)
+				}
+				if len(fd.HTTPMappings()) != mappings {
+					cs.Viol("tdesc:fastpath:http-mappings", "path", p, "got", len(fd.HTTPMappings()), "want", mappings, "top", top)
+				}
+				var keys []string
+				switch o.MapFieldWay {
+				case meta.MapFieldUseAlias:
+					keys = []string{alias}
+				case meta.MapFieldUseFieldName:
+					keys = []string{f.name}
+				default:
+					keys = []string{alias, f.name}
+				}
+				for _, k := range keys {
+					all[k] = f.id
+					if g := d.FieldByKey(k); g != fd {
+						cs.Viol("tdesc:lookup-by-key", "path", p, "key", k, "got-nil", g == nil, "top", top)
+					}
+				}
+				cs.CoverN("fastpath_fields_checked", 1)
+				if f.body != "" && top && o.ApiBodyFastPath {
+					cs.Cover("fastpath_alias_from_api_body")
+				}
+			}
+			// a name or alias hidden by the options must not resolve
+			for _, f := range fs {
+				for _, k := range []string{f.name, f.body, f.key} {
+					if k == "" {
+						continue
+					}
+					if _, declared := all[k]; !declared && d.FieldByKey(k) != nil {
+						cs.Viol("tdesc:lookup-key-iff", "path", path, "key", k, "top", top)
+					}
+				}
+			}
+		}
+		rq := fn.Request().Struct().FieldById(1)
+		rs := fn.Response().Struct().FieldById(0)
+		if rq == nil || rs == nil {
+			cs.Viol("tdesc:fastpath:wrapper", "fn", "M")
+			return
+		}
+		check(rq.Type().Struct(), req, true, "M.req")
+		check(rs.Type().Struct(), rsp, true, "M.resp")
+		for _, x := range []*thrift.FieldDescriptor{rq.Type().Struct().FieldById(100), rs.Type().Struct().FieldById(100)} {
+			if x == nil {
+				cs.Viol("tdesc:field-missing-by-id", "path", "inner", "id", 100)
+				continue
+			}
+			check(x.Type().Struct(), inner, false, "M.*.inner")
+		}
+		cs.Cover("fastpath_programs_ok")
+		cs.Distinct(fmt.Sprintf("fp-%v-%d-%d-%d", o.ApiBodyFastPath, o.MapFieldWay, len(req), len(rsp)))
+	})
+}
+
 func runC14(c *h.Ctx) {
+	defer c14BodyFast(c)
 	defer c14Base(c)
 	c.Run("programs", c.N(3000, 100000), func(cs *h.Case) {
 		cfg := gen.TCfg{Includes: cs.R.Intn(3), SameNames: cs.R.Chance(70), HashKeys: cs.R.Chance(30), NonASCII: cs.R.Chance(40), MaxFields: 1 + cs.R.Intn(8)}
